@@ -551,7 +551,14 @@ macro_rules! from_meta_lit {
             fn from_list(items: &[NestedMeta]) -> Result<Self> {
                 items
                     .iter()
-                    .map(<$impl_ty as FromMeta>::from_nested_meta)
+                    .map(|item| match item {
+                        NestedMeta::Lit(_) => <$impl_ty as FromMeta>::from_nested_meta(item),
+                        // `name = "x"` is a meta item, not a literal; reading its value
+                        // would silently drop the name.
+                        NestedMeta::Meta(_) => {
+                            Err(Error::unsupported_format("non-literal").with_span(item))
+                        }
+                    })
                     .collect()
             }
 
